@@ -26,24 +26,22 @@ def AllGuardsR : List Op → Prop
   | [] => True
   | op :: rest => AllGuardsR rest ∧ op.guard (replayR rest) = true
 
+/-- The index component of a CoreVM state. It cannot be built or changed except by replaying guarded operations:
+    the two proof fields make "the index is the replay of the log" and "every guard along the log held" true of EVERY
+    value of this type — hence of every state CoreVM can be in. -/
 structure IxS where
   rlog : List Op := []
   ix : IState := {}
-  ok : Bool := true
   h : ix = replayR rlog := by rfl
-  hok : ok = true → AllGuardsR rlog := by intro _; trivial
+  hok : AllGuardsR rlog := by trivial
 
 instance : Inhabited IxS := ⟨{}⟩
 
-def IxS.apply (x : IxS) (op : Op) : IxS where
+def IxS.apply (x : IxS) (op : Op) (hg : op.guard x.ix = true) : IxS where
   rlog := op :: x.rlog
   ix := step x.ix op
-  ok := x.ok && op.guard x.ix
   h := by simp only [replayR]; rw [← x.h]
-  hok := by
-    intro hh
-    simp only [Bool.and_eq_true] at hh
-    exact ⟨x.hok hh.1, by rw [← x.h]; exact hh.2⟩
+  hok := ⟨x.hok, by rw [← x.h]; exact hg⟩
 
 /-! ### values, events, actions -/
 
@@ -141,11 +139,23 @@ inductive VMErr where
   | unsupported (why : String)
   /-- a Python exception of the given class -/
   | py (cls : String) (msg : String)
+  /-- an index operation whose guard does not hold was about to be applied: the model stops (the interpreter would go on
+      with an inexact index — exactly what C09 is about; the harness reports it) -/
+  | guardFailed (op : String)
   deriving Repr, Inhabited
 
 abbrev M := EStateM VMErr VM
 
-def applyOp (op : Op) : M Unit := modify fun s => { s with ixs := s.ixs.apply op }
+def opName : Op → String
+  | .addInst f h _ => s!"addInst {f} {h}" | .setPos f h p _ => s!"setPos {f} {h} {p}" | .setStatus f h _ _ => s!"setStatus {f} {h}"
+  | .fork f h _ p _ => s!"fork {f} {h} {p}" | .delHead f h => s!"delHead {f} {h}" | .dropHeads f => s!"dropHeads {f}"
+  | .rmHead f h => s!"rmHead {f} {h}" | .clearHeads f => s!"clearHeads {f}" | .mainRestart f h _ => s!"mainRestart {f} {h}"
+  | .setFlowStatus f _ => s!"setFlowStatus {f}" | .removeInst f => s!"removeInst {f}"
+
+/-- the ONLY way the index component changes: a guarded `CoreIndex.step` -/
+def applyOp (op : Op) : M Unit := fun s =>
+  if hg : op.guard s.ixs.ix = true then .ok () { s with ixs := s.ixs.apply op hg }
+  else .error (.guardFailed (opName op)) s
 def modifyRest (f : Rest → Rest) : M Unit := modify fun s => { s with r := f s.r }
 def getRest : M Rest := do return (← get).r
 def getIx : M IState := do return (← get).ixs.ix
